@@ -18,7 +18,7 @@ pub fn property() -> Property {
     Property {
         id: "C12",
         level: "exploration",
-        rule: "family `pool` (Lab-M, virtual time): pool configuration (check interval 1-120 s, idle timeout 1-300 s, min idle 0-3) and a history of Add (fresh in-memory client session), Get, Kill(i) (external close), Advance(dt) (dt around the interval and the timeout), Cleanup (public cleanup_expired); the harness steps the clock tick by tick and evaluates the validity predicate around every reaper tick: Get never returns a closed session and finds a live idle one if there is one; a tick closes only sessions idle longer than the timeout, never leaves fewer live idle sessions than min(min_idle, before), leaves at most min_idle expired ones, idle_count agrees with the model; nothing else ever closes a session. Non-trivial = a tick/cleanup with >= 1 expired entry while the map holds > min_idle entries, or a Get with a closed entry in the map. Distinct = distinct serialized case. The pool family also adds sessions whose transport takes 10 ms to shut down and runs cleanup_expired() concurrently with get_idle_session() at offsets of 0-40 ms: a session handed to the request must still be open when the cleanup has finished (C12.inuse), closed sessions must have been expired, idle_count stays within the model's bounds.",
+        rule: "family `pool` (Lab-M, virtual time): pool configuration (check interval 1-120 s, idle timeout 1-300 s, min idle 0-3) and a history of Add (fresh in-memory client session), Get, Kill(i) (external close), Advance(dt) (dt around the interval and the timeout), Cleanup (public cleanup_expired); the harness steps the clock tick by tick and evaluates the validity predicate around every reaper tick: Get never returns a closed session and finds a live idle one if there is one; a tick closes only sessions idle longer than the timeout, never leaves fewer live idle sessions than min(min_idle, before), leaves at most min_idle expired ones, idle_count agrees with the model; nothing else ever closes a session. Non-trivial = a tick/cleanup with >= 1 expired entry while the map holds > min_idle entries, or a Get with a closed entry in the map. Distinct = distinct serialized case. The pool family also adds sessions whose transport takes 10 ms to shut down and runs cleanup_expired() concurrently with get_idle_session() at offsets of 0-40 ms: a session handed to the request must still be open when the cleanup has finished (C12.inuse), closed sessions must have been expired, idle_count stays within the model's bounds. Two cases in five give the idle timeout a fractional part (+10, +500 or +900 ms on top of the whole seconds): 'expired' is judged on the exact duration.",
         assumptions: vec![
             "tokio paused clock with auto-advance; ticks of the periodic reaper happen at creation + k * interval",
             "which survivor is kept is left open; an entry idle for exactly the timeout may go either way",
